@@ -17,7 +17,13 @@ from .report import Ob, OK, VIOLATED, ERROR, INFO
 
 
 def _is_norm_call(e):
-    return isinstance(e, ast.Call) and norm(e.func).endswith("linalg.norm")
+    """tn.linalg.norm(X) / tn.norm(X), or the method spelling X.norm()"""
+    if not isinstance(e, ast.Call):
+        return False
+    t = norm(e.func).replace(" ", "")
+    if t.endswith("linalg.norm") or t in ("tn.norm", "torch.norm"):
+        return True
+    return isinstance(e.func, ast.Attribute) and e.func.attr == "norm" and not e.args and not e.keywords
 
 
 def _trackers(f: Func):
@@ -102,6 +108,37 @@ def _sanitising_helper(model: Model, f: Func, call) -> bool:
     return True
 
 
+def _tuple_helper_element(model: Model, f: Func, call, j: int, n: int):
+    """element j of the n-tuple a repository helper returns: True - a norm made positive, False - a raw norm, None - not a norm"""
+    r = model.resolve(f.module, call.func)
+    g = model.functions.get(r) if r else None
+    if g is None:
+        return None
+    rets = [x for x in ast.walk(g.node) if isinstance(x, ast.Return) and isinstance(x.value, ast.Tuple) and len(x.value.elts) == n]
+    if not rets or len(rets) != len([x for x in ast.walk(g.node) if isinstance(x, ast.Return)]):
+        return None
+    norm_vars = {x.targets[0].id for x in ast.walk(g.node) if isinstance(x, ast.Assign) and len(x.targets) == 1 and isinstance(x.targets[0], ast.Name)
+                 and _is_norm_call(x.value)}
+    verdicts = []
+    for rt in rets:
+        v = rt.value.elts[j]
+        if isinstance(v, ast.IfExp) and isinstance(v.test, ast.Compare) and isinstance(v.test.ops[0], ast.Gt) and _positive_const(v.orelse):
+            verdicts.append(True)
+        elif _positive_const(v):
+            verdicts.append(True)
+        elif isinstance(v, ast.Name) and v.id in norm_vars:
+            ok = False
+            for block in _blocks(g.node):
+                if rt in block and _sanitised(block, block.index(rt), v.id):
+                    ok = True
+            verdicts.append(ok)
+        elif _is_norm_call(v):
+            verdicts.append(False)
+        else:
+            return None
+    return all(verdicts)
+
+
 def _helper_defined(model, f, block, idx, var):
     """the last definition of var before block[idx] is a call of a sanitising helper"""
     for j in range(idx - 1, -1, -1):
@@ -132,6 +169,25 @@ def rule_zero_norm(model: Model, short: str):
                 tgt, val = s.targets[0], s.value
             elif isinstance(s, ast.AugAssign):
                 tgt, val = s.target, s.value
+            if isinstance(tgt, ast.Tuple) and isinstance(val, ast.Call):
+                # X, tracker[e] = helper(...): the helper hands the norm back as one element of its result
+                for j, te in enumerate(tgt.elts):
+                    if isinstance(te, ast.Subscript) and isinstance(te.value, ast.Name) and te.value.id in tr:
+                        verdict = _tuple_helper_element(model, f, val, j, len(tgt.elts))
+                        if verdict is None:
+                            continue
+                        text = norm(s)
+                        n = seen.get(text, 0)
+                        seen[text] = n + 1
+                        k = f"{short}:ZERO-NORM:{text}:{n}"
+                        if verdict:
+                            obs.append(Ob("ZERO-NORM", k, OK, model.where(f, s), text, "the helper replaces a norm that is not positive by a positive constant before returning it"))
+                        else:
+                            obs.append(Ob("ZERO-NORM", k, VIOLATED, model.where(f, s), text,
+                                          f"{short}: `{text}` stores a norm returned by `{norm(val.func)}` in the tracker `{te.value.id}`, and that helper does not "
+                                          f"replace a zero norm by a positive constant; a zero iterate / interface makes the tracker 0, and the later division "
+                                          f"by it (nrmsc) / its logarithm gives inf or nan"))
+                continue
             if tgt is None or not (isinstance(tgt, ast.Subscript) and isinstance(tgt.value, ast.Name) and tgt.value.id in tr):
                 continue
             used = [x.id for x in ast.walk(val) if isinstance(x, ast.Name) and x.id in norm_vars]
@@ -182,8 +238,26 @@ def rule_arnoldi_seed(model: Model):
     defs = [n for n in ast.walk(f.node) if isinstance(n, ast.Assign) and norm(n.targets[0]) == norm(seed[1]) and _is_norm_call(n.value)]
     base = norm(seed[2]).split("[")[0]
     of_seed = bool(defs) and all(norm(d.value.args[0]) == base for d in defs)
+    # the seeded vector is the residual of the initial guess: b - A x0 (gmres_restart re-enters with the previous iterate as x0)
+    params = f.params()
+    seed_name = base
+    rdefs = [n for n in ast.walk(f.node) if isinstance(n, ast.Assign) and isinstance(n.targets[0], ast.Name) and n.targets[0].id == seed_name]
+    res_ok = False
+    for d in rdefs:
+        names = {x.id for x in ast.walk(d.value) if isinstance(x, ast.Name)}
+        mv = [c for c in ast.walk(d.value) if isinstance(c, ast.Call) and isinstance(c.func, ast.Attribute) and c.func.attr == "matvec" and c.args
+              and isinstance(c.args[0], ast.Name) and c.args[0].id in params]
+        if isinstance(d.value, ast.BinOp) and isinstance(d.value.op, ast.Sub) and mv and (names & set(params)) - {mv[0].args[0].id, norm(mv[0].func.value)}:
+            res_ok = True
+    extra = []
+    if rdefs and not res_ok:
+        extra.append(Ob("ARNOLDI-SEED", k + ":residual", VIOLATED, model.where(f, rdefs[0]), norm(rdefs[0]),
+                        f"gmres seeds the Krylov space with `{norm(rdefs[0])}`; it must be the residual b - A x0 of the initial guess it is given: "
+                        "gmres_restart re-enters with the previous iterate as x0, so after a restart every cycle adds the same correction again"))
+    elif rdefs:
+        extra.append(Ob("ARNOLDI-SEED", k + ":residual", OK, model.where(f, rdefs[0]), norm(rdefs[0]), "the seed is the residual of the initial guess"))
     ok = same and of_seed
-    return [Ob("ARNOLDI-SEED", k, OK if ok else VIOLATED, model.where(f, scale[0]), f"{norm(seed[0])} ; {norm(scale[0])}",
+    return extra + [Ob("ARNOLDI-SEED", k, OK if ok else VIOLATED, model.where(f, scale[0]), f"{norm(seed[0])} ; {norm(scale[0])}",
                "the basis is seeded with r/||r|| and the least-squares right-hand side is ||r|| e1" if ok else
                f"gmres seeds the Krylov basis with `{norm(seed[0])}` but builds the least-squares right-hand side as `{norm(scale[0])}`: the Arnoldi "
                "relation r0 = beta*q1 needs the same scalar, the norm of the seeded residual; after a restart (r != b) the correction is scaled wrongly")]
